@@ -14,11 +14,14 @@
 //! (c) `kb`: `validate_key_binding_jwt` — KB-JWT absent/present, typ, alg, signing key (holder key, another key of the
 //!     holder, a foreign document's key, payload changed after signing, the key of the foreign-DID method listed in the
 //!     holder document), kid, method_id override, scope, supplied holder document, sd_hash {right, other disclosure
-//!     subset, garbage, token only, reversed order}, nonce claim x option, aud claim {string, absent, array} x option,
+//!     subset, garbage, token only, reversed order, absent, the right digest minus its last character / its first
+//!     character / empty / plus one character / plus `=` / one letter in the other case}, nonce claim x option and aud
+//!     claim {string, absent, array} x option, each with values that are a strict prefix / an extension / the empty string
+//!     of the other side (both directions; the issuer side has the same shapes for header nonce x option),
 //!     iat {integer, out of the year range, string, integral / fractional float, absent} x {earliest, latest} bound x owned
 //!     clock, additional claims, disclosure subsets, `_sd_alg`.
 //! (d) `kb-core`: the FULL product {typ, alg, signing key, kid, override, scope, holder document} crossed with <= 0 / <= 1
-//!     other deviations.
+//!     other deviations; in the quick tier (0 other deviations) the sd_hash alternatives are part of the product.
 //!
 //! Oracle: the set of FALSE conditions is computed from the choices and a hand-written table of the documents (never by
 //! calling the resolver). accepted => no stated condition is false, and what is returned equals what was signed (the
@@ -419,6 +422,26 @@ fn present(all: &[Disclosure], presented: &[bool; N], tamper: Tamper) -> Vec<Str
   out
 }
 
+/// How an equality-checked string misses the expected one (`got != want`): truncated comparisons (zip, starts_with,
+/// length of the shorter side) accept exactly the prefix classes.
+fn mismatch(got: &str, want: &str) -> &'static str {
+  if want.starts_with(got) {
+    if got.is_empty() {
+      "empty-where-a-value-is-expected"
+    } else {
+      "strict-prefix-of-expected"
+    }
+  } else if got.starts_with(want) {
+    if want.is_empty() {
+      "value-where-empty-is-expected"
+    } else {
+      "expected-is-strict-prefix"
+    }
+  } else {
+    "differs"
+  }
+}
+
 fn names(set: &BTreeSet<String>) -> BTreeSet<String> {
   set.iter().map(|c| c.split(':').next().unwrap().to_string()).collect()
 }
@@ -485,8 +508,24 @@ fn issuer_body(ctx: &Ctx, src: &mut Src, mk: &dyn Fn(Vec<u32>) -> Case, part: &'
   let ovr = src.core("method_id", 5);
   let scope = Scope::of(src.core("method_scope", 4));
   let iss = src.core("iss", 5);
-  let (hdr_nonce, opt_nonce) = NONCE_PAIRS[src.core("nonce header/option", 5)];
+  let nonce_pair = src.core("nonce header/option", 5);
+  let (mut hdr_nonce, mut opt_nonce) = NONCE_PAIRS[nonce_pair];
   // ---- the rest
+  // shapes of a nonce mismatch: one side a strict prefix of the other, one side the empty string
+  match nonce_pair {
+    2 => hdr_nonce = [Some("nonce-1"), Some("")][src.other("nonce header (option unset)", 2)],
+    3 => opt_nonce = [Some("nonce-1"), Some("")][src.other("nonce option (header without nonce)", 2)],
+    4 => {
+      (hdr_nonce, opt_nonce) = [
+        (Some("nonce-1"), Some("nonce-2")),
+        (Some("nonce-"), Some("nonce-1")),
+        (Some("nonce-1"), Some("nonce-")),
+        (Some(""), Some("nonce-1")),
+        (Some("nonce-1"), Some("")),
+      ][src.other("nonce mismatch shape", 5)]
+    }
+    _ => {}
+  }
   let exp_absent = src.other("exp-absent", 2) == 1;
   let latest = [None, Some(ISS_DATE + 1), Some(ISS_DATE), Some(ISS_DATE - 1)][src.other("latest_issuance_date", 4)];
   let earliest = [None, Some(EXP_DATE - 1), Some(EXP_DATE), Some(EXP_DATE + 1)][src.other("earliest_expiry_date", 4)];
@@ -621,8 +660,11 @@ fn issuer_body(ctx: &Ctx, src: &mut Src, mk: &dyn Fn(Vec<u32>) -> Case, part: &'
   };
   let mut f_sig: BTreeSet<String> = BTreeSet::new();
   let mut open: Vec<&str> = Vec::new();
-  if hdr_nonce != opt_nonce {
-    f_sig.insert("nonce".into());
+  match (hdr_nonce, opt_nonce) {
+    (Some(h), Some(o)) if h != o => drop(f_sig.insert(format!("nonce:{}", mismatch(h, o)))),
+    (Some(_), None) => drop(f_sig.insert("nonce:header-carries-one-none-configured".into())),
+    (None, Some(_)) => drop(f_sig.insert("nonce:configured-but-header-carries-none".into())),
+    _ => {}
   }
   let method_id: Option<&str> = match (ovr_str, kid) {
     (Some(m), _) => Some(m),
@@ -940,6 +982,8 @@ fn typ_class(t: Option<&str>) -> &'static str {
     Some(_) => "other",
   }
 }
+/// sd_hash alternatives with every disclosure presented (the 8th member of the quick tier's KB core tuple)
+const KB_HASHES: usize = 12;
 fn kb_core_dims() -> [usize; 7] {
   [typ_alphabet().len(), 2, 5, 7, 5, 4, 2]
 }
@@ -1005,21 +1049,59 @@ fn kb_body(ctx: &Ctx, src: &mut Src, mk: &dyn Fn(Vec<u32>) -> Case, part: &'stat
     Garbage,
     TokenOnly,
     Absent,
+    /// the right digest without its last character / its first character only / the empty string
+    Truncated,
+    FirstChar,
+    Empty,
+    /// the right digest followed by one more character / by `=` padding / with one letter in the other case
+    Extended,
+    Padded,
+    CaseFlipped,
     Reversed,
   }
-  let mut hashes = vec![Hash::Right, Hash::OtherSubset, Hash::Garbage, Hash::TokenOnly, Hash::Absent];
+  let mut hashes = vec![
+    Hash::Right,
+    Hash::OtherSubset,
+    Hash::Garbage,
+    Hash::TokenOnly,
+    Hash::Absent,
+    Hash::Truncated,
+    Hash::FirstChar,
+    Hash::Empty,
+    Hash::Extended,
+    Hash::Padded,
+    Hash::CaseFlipped,
+  ];
   if n_presented >= 2 {
     hashes.push(Hash::Reversed);
   }
-  let hash = hashes[src.other("sd_hash", hashes.len())];
-  let nonce_claim = [Some("nonce-1"), Some("nonce-2"), None][src.other("nonce-claim", 3)];
-  let nonce_opt = [None, Some("nonce-1"), Some("nonce-2")][src.other("nonce-option", 3)];
-  // aud claim: a string, another string, absent, an array holding the first, an array holding both (the other one first)
-  let aud_kind = src.other("aud-claim", 5);
-  let aud_values: &[&str] =
-    [&["did:vx:verifier"][..], &["did:vx:verifier2"][..], &[][..], &["did:vx:verifier"][..], &["did:vx:verifier2", "did:vx:verifier"][..]][aud_kind];
-  let aud_claim: Option<&str> = if aud_kind <= 1 { Some(aud_values[0]) } else { None };
-  let aud_opt = [None, Some("did:vx:verifier"), Some("did:vx:verifier2")][src.other("aud-option", 3)];
+  // part (d), quick tier: the sd_hash alternative is the 8th member of the core tuple
+  let hash = match src.core {
+    Some(c) if c.len() > 7 => {
+      let v = c[7] as usize;
+      if v >= hashes.len() {
+        return ctx.require(false, "kb-core: sd_hash alternative of the core tuple out of range");
+      }
+      hashes[v]
+    }
+    _ => hashes[src.other("sd_hash", hashes.len())],
+  };
+  let nonce_claim = [Some("nonce-1"), Some("nonce-2"), None, Some("nonce-"), Some("nonce-1x"), Some("")][src.other("nonce-claim", 6)];
+  let nonce_opt = [None, Some("nonce-1"), Some("nonce-2"), Some("nonce-"), Some("nonce-1x"), Some("")][src.other("nonce-option", 6)];
+  // aud claim: a string, a string it is a strict prefix of, absent, an array holding the first, an array holding both (the
+  // other one first), the empty string
+  let aud_kind = src.other("aud-claim", 6);
+  let aud_values: &[&str] = [
+    &["did:vx:verifier"][..],
+    &["did:vx:verifier2"][..],
+    &[][..],
+    &["did:vx:verifier"][..],
+    &["did:vx:verifier2", "did:vx:verifier"][..],
+    &[""][..],
+  ][aud_kind];
+  let aud_is_array = aud_kind == 3 || aud_kind == 4;
+  let aud_claim: Option<&str> = if aud_kind <= 1 || aud_kind == 5 { Some(aud_values[0]) } else { None };
+  let aud_opt = [None, Some("did:vx:verifier"), Some("did:vx:verifier2"), Some("")][src.other("aud-option", 4)];
   // iat: in range, first second of year 10000, last second of year -1, a string, an integral float, a fractional float, absent
   let iat_kind = src.other("iat", 7);
   let iat: i64 = [IAT0, 253_402_300_800, -62_167_219_201, IAT0, IAT0, IAT0, IAT0][iat_kind];
@@ -1067,6 +1149,25 @@ fn kb_body(ctx: &Ctx, src: &mut Src, mk: &dyn Fn(Vec<u32>) -> Case, part: &'stat
     Hash::Garbage => Some("AAAAAAAAAAAAAAAAAAAAAAAAAAAAAAAAAAAAAAAAAAA".into()),
     Hash::TokenOnly => Some(b64_sha256(&format!("{jwt}~"))),
     Hash::Absent => None,
+    Hash::Truncated => {
+      let mut d = over(&disclosures);
+      d.pop();
+      Some(d)
+    }
+    Hash::FirstChar => Some(over(&disclosures)[..1].to_string()),
+    Hash::Empty => Some(String::new()),
+    Hash::Extended => Some(format!("{}A", over(&disclosures))),
+    Hash::Padded => Some(format!("{}=", over(&disclosures))),
+    Hash::CaseFlipped => {
+      let d = over(&disclosures);
+      match d.char_indices().find(|(_, c)| c.is_ascii_alphabetic()) {
+        Some((i, c)) => {
+          let flipped = if c.is_ascii_lowercase() { c.to_ascii_uppercase() } else { c.to_ascii_lowercase() };
+          Some(format!("{}{}{}", &d[..i], flipped, &d[i + 1..]))
+        }
+        None => return ctx.require(false, "kb: the digest holds no letter whose case could be changed"),
+      }
+    }
     Hash::Reversed => {
       let mut r = disclosures.clone();
       r.reverse();
@@ -1084,7 +1185,7 @@ fn kb_body(ctx: &Ctx, src: &mut Src, mk: &dyn Fn(Vec<u32>) -> Case, part: &'stat
     _ => kb_claims["iat"] = json!(iat),
   }
   match aud_kind {
-    0 | 1 => kb_claims["aud"] = json!(aud_values[0]),
+    0 | 1 | 5 => kb_claims["aud"] = json!(aud_values[0]),
     2 => {}
     _ => kb_claims["aud"] = json!(aud_values),
   }
@@ -1220,11 +1321,19 @@ fn kb_body(ctx: &Ctx, src: &mut Src, mk: &dyn Fn(Vec<u32>) -> Case, part: &'stat
       Hash::OtherSubset => drop(f.insert("sd_hash:over-other-disclosure-subset".into())),
       Hash::Garbage => drop(f.insert("sd_hash:garbage".into())),
       Hash::Absent => drop(f.insert("sd_hash:absent".into())),
+      // a string of another length, or differing in one character, is not the digest whichever form it was made over
+      Hash::Truncated | Hash::FirstChar => drop(f.insert("sd_hash:strict-prefix-of-the-digest".into())),
+      Hash::Empty => drop(f.insert("sd_hash:empty".into())),
+      Hash::Extended => drop(f.insert("sd_hash:digest-followed-by-another-character".into())),
+      Hash::Padded => drop(f.insert("sd_hash:digest-with-padding".into())),
+      Hash::CaseFlipped => drop(f.insert("sd_hash:digest-with-one-letter-in-other-case".into())),
       Hash::Reversed => drop(f.insert("sd_hash:over-reversed-disclosures".into())),
     }
     if let Some(n) = nonce_opt {
-      if nonce_claim != Some(n) {
-        f.insert(format!("nonce:{}", if nonce_claim.is_none() { "claim-absent" } else { "differs" }));
+      match nonce_claim {
+        None => drop(f.insert("nonce:claim-absent".into())),
+        Some(c) if c != n => drop(f.insert(format!("nonce:{}", mismatch(c, n)))),
+        _ => {}
       }
     }
     if nonce_claim.is_none() && nonce_opt.is_none() {
@@ -1233,13 +1342,18 @@ fn kb_body(ctx: &Ctx, src: &mut Src, mk: &dyn Fn(Vec<u32>) -> Case, part: &'stat
     if let Some(a) = aud_opt {
       // an array-valued aud (RFC 7519 4.1.3) names every member
       if !aud_values.contains(&a) {
-        f.insert(format!("aud:{}", if aud_values.is_empty() { "claim-absent" } else { "differs" }));
+        let class = match aud_claim {
+          Some(c) => mismatch(c, a),
+          None if aud_values.is_empty() => "claim-absent",
+          None => "differs",
+        };
+        f.insert(format!("aud:{class}"));
       }
     }
     if aud_kind == 2 && aud_opt.is_none() {
       open.push("aud claim absent, no aud required");
     }
-    if aud_kind >= 3 {
+    if aud_is_array {
       open.push("aud is an array");
     }
     match iat_instant {
@@ -1284,7 +1398,7 @@ fn kb_body(ctx: &Ctx, src: &mut Src, mk: &dyn Fn(Vec<u32>) -> Case, part: &'stat
     }
   }
   let mut all_false = names(&f);
-  if !kb_absent && (hash == Hash::Absent || nonce_claim.is_none() || aud_kind >= 2 || iat_kind >= 3) {
+  if !kb_absent && (matches!(hash, Hash::Absent | Hash::Empty | Hash::Padded) || nonce_claim.is_none() || aud_kind == 2 || aud_is_array || iat_kind >= 3) {
     // a missing or mistyped member may be reported as such
     all_false.insert("claims-wellformed".into());
   }
@@ -1306,7 +1420,7 @@ fn kb_body(ctx: &Ctx, src: &mut Src, mk: &dyn Fn(Vec<u32>) -> Case, part: &'stat
       }
       // the claims handed back are the signed ones (a fractional iat and an array aud have no counterpart in the types)
       let iat_same = iat_kind >= 5 || got.iat == iat;
-      let aud_same = aud_kind >= 3 || Some(got.aud.as_str()) == aud_claim;
+      let aud_same = aud_is_array || Some(got.aud.as_str()) == aud_claim;
       if !iat_same || !aud_same || Some(got.nonce.as_str()) != nonce_claim || Some(&got.sd_hash) != sd_hash.as_ref() || got.properties != extra {
         ctx.violation(&format!("{KB}|accepted|returned-claims-differ-from-signed"), &format!("{got:?} | {}", describe()), &case);
       }
@@ -1353,7 +1467,8 @@ fn eval(ctx: &Ctx, case: &Case) {
       kb_body(ctx, &mut Src { ch: &mut ch, core: None, k: 0 }, &|seq| Case::Kb { seq }, "kb")
     }
     Case::KbCore { core, seq } => {
-      if core.len() != kb_core_dims().len() || core.iter().zip(kb_core_dims()).any(|(v, n)| *v as usize >= n) {
+      let dims: Vec<usize> = kb_core_dims().into_iter().chain([KB_HASHES]).collect();
+      if (core.len() != 7 && core.len() != 8) || core.iter().zip(&dims).any(|(v, n)| *v as usize >= *n) {
         return ctx.require(false, &format!("bad replay case {c:?}"));
       }
       let mut ch = Chooser::replay(seq);
@@ -1431,7 +1546,11 @@ fn generate(ctx: &Ctx) {
     let core = t.to_vec();
     issuer_body(ctx, &mut Src { ch, core: Some(t), k: 0 }, &move |seq| Case::IssuerCore { core: core.clone(), seq }, "issuer-core")
   });
-  core_part(ctx, "kb-core", &kb_core_dims(), b2, &|_| true, "", &|ctx, t, ch| {
+  // quick: no other deviation, so the sd_hash alternatives join the core tuple; thorough: they are among the <= 1 other
+  // deviations of every core tuple anyway
+  let kb_dims: Vec<usize> = if b2 == 0 { kb_core_dims().into_iter().chain([KB_HASHES]).collect() } else { kb_core_dims().to_vec() };
+  ctx.bound("kb_core_sd_hash_in_tuple", b2 == 0);
+  core_part(ctx, "kb-core", &kb_dims, b2, &|_| true, "", &|ctx, t, ch| {
     let core = t.to_vec();
     kb_body(ctx, &mut Src { ch, core: Some(t), k: 0 }, &move |seq| Case::KbCore { core: core.clone(), seq }, "kb-core")
   });
